@@ -74,7 +74,7 @@ impl Monitor for C15 {
         "C15"
     }
     fn rule(&self) -> String {
-        "cases = a package with n candidates (random ranks => random discovery order) revealed through union requirements '(z | subset of a)' in random partitions / orders / overlaps, or not revealed at all; for n <= 40 ALL pairs i<j and all singles are checked for every reveal variant (exhaustive subset, `fixed` work), for n up to 260 sampled pairs crossing the 2^k boundaries. Oracle (expected by construction): {reveal.., =i, =j} is Unsolvable, {reveal.., =i} is Ok and contains exactly candidate i of the package. Hook monitor after each solve: every candidate registered for the package carries a complete, distinct bit pattern over the helper variables. distinct = (n, variant, pair); non-trivial = pair at a size where >= 1 helper variable exists (n >= 2)".into()
+        "cases = a package with n candidates (random ranks => random discovery order) revealed through union requirements '(z | subset of a)' in random partitions / orders / overlaps, or not revealed at all; for n <= 40 ALL pairs i<j and all singles are checked for every reveal variant (exhaustive subset, `fixed` work), for n up to 260 sampled pairs crossing the 2^k boundaries. Oracle (expected by construction): {reveal.., =i, =j} is Unsolvable, {reveal.., =i} is Ok and contains exactly candidate i of the package. Hook monitor after each solve: over the dumped forbid clauses of the package, unit propagation from any registered candidate must falsify every other one without conflict (layout independent). distinct = (n, variant, pair); non-trivial = pair at a size where >= 1 helper variable exists (n >= 2)".into()
     }
     fn cases(&self, tier: Tier) -> u64 {
         tier.pick(1_800, 36_000)
